@@ -33,12 +33,11 @@ func init() {
 		if len(args) != 1 {
 			return nil, ExceptionNewf(TypeError, "append() takes exactly one argument (%d given)", len(args))
 		}
-		// Any iterable will do (read it first - it may be the list itself)
-		items, err := SequenceTuple(args[0])
-		if err != nil {
+		// Any iterable will do; it is consumed item by item, so what it
+		// yielded before raising stays appended
+		if err := listSelf.ExtendSequence(args[0]); err != nil {
 			return nil, err
 		}
-		listSelf.Extend(items)
 		return NoneType{}, nil
 	}, 0, "extend([item])")
 
@@ -310,12 +309,10 @@ func (a *List) M__radd__(other Object) (Object, error) {
 }
 
 func (a *List) M__iadd__(other Object) (Object, error) {
-	// += extends in place from any iterable (read it first - it may be a)
-	items, err := SequenceTuple(other)
-	if err != nil {
+	// += extends in place from any iterable, item by item
+	if err := a.ExtendSequence(other); err != nil {
 		return nil, err
 	}
-	a.Extend(items)
 	return a, nil
 }
 
